@@ -22,6 +22,17 @@ CLAIMED = {
         ref="6 C20"),
 }
 
+CLAIMED["C08"] = dict(
+    technique="Lean 4 theorems over a hand-written model of the search loops + exhaustive small-alphabet correspondence",
+    text="Theorems for all haystacks/needles/starts: find_first = least occurrence >= start (not-found iff none), find_last = "
+         "greatest occurrence via the real right-to-left candidate loop, count = number of occurrence positions (overlaps "
+         "included), find_first_of/_not_of = first member/non-member position, equal = byte equality, equal_case = equality "
+         "after A-Z -> a-z; every read of the model is bounds-checked and proved in bounds.",
+    note="Modelled, not verified: glibc memmem/strchr/memcmp (their contracts are Lean definitions). The code-point set "
+         "variants gp_str_find_first_of/_not_of are not covered by a theorem yet. Correspondence: exhaustive over alphabets "
+         "{a,b} (haystack<=8/11) and {a,b,c} (<=5/7), all needles<=4/3, all starts; seeded random beyond.",
+    ref="6 C08")
+
 PENDING = {}
 
 def main():
